@@ -149,6 +149,13 @@ htp_status_t htp_conn_open(htp_conn_t *conn, const char *client_addr, int client
 htp_status_t htp_conn_remove_tx(htp_conn_t *conn, const htp_tx_t *tx) {
     if ((tx == NULL) || (conn == NULL)) return HTP_ERROR;
     if (conn->transactions == NULL) return HTP_ERROR;
+    // A transaction normally sits where its index says; looking there first keeps the
+    // removal of every transaction of a long connection from being a search of the
+    // whole list (the index dates from the creation of the transaction, recycled
+    // slots move later transactions down, hence the search below).
+    if ((tx->index < htp_list_size(conn->transactions)) && (htp_list_get(conn->transactions, tx->index) == tx)) {
+        return htp_list_replace(conn->transactions, tx->index, NULL);
+    }
     for (size_t i = 0, n = htp_list_size(conn->transactions); i < n; i++) {
         htp_tx_t *tx2 = htp_list_get(conn->transactions, i);
         if (tx2 == tx) {
